@@ -1,4 +1,4 @@
-//@@ unit c09_pipeline properties=C09 noverus bounded=pipeline.cut_points_planned_executed_bracketed_idempotent_deterministic
+//@@ unit c09_pipeline properties=C09,C07 noverus bounded=pipeline.cut_points_planned_executed_bracketed_idempotent_deterministic
 // This unit carries no Verus obligations.  compaction_cut_points_v1 (built-in tuple Clone, filter_map), the executor
 // compaction_auto_run_spawned_job_v1 (an immediately-invoked closure that captures `&mut created`, a nested fn and struct) and the
 // summary renderer (HashMap iteration + sort_by) are outside what this Verus accepts.  Its clause is a BOUNDED stand-in run by
